@@ -451,6 +451,8 @@ def run(ctx):
         ctx.violation(key, "solve_ivp %s not explained by AdaptiveRK at event %d/%d: %s" % (json.dumps(t_["cfg"]), matched + 1, total, json.dumps(ev)[:400]), {"cfg": t_["cfg"]})
     nnum = fixed_numeric(ctx)
     nhist = precision_histories(ctx)
+    from vlib import resulthistory
+    nhist += resulthistory.replay(ctx, ["solve_ivp:rk4", "solve_ivp:rk45", "solve_ivp:rk23"], "ivp")
     ctx.samples.append({"cfg": traces[0]["cfg"], "events": traces[0]["ev"][:6]})
     ctx.replayed = nfix + nhist
     ctx.notes.update(fixed_exact_cases=nfix, adaptive_runs=len(traces), try_events=sum(len(t_["ev"]) for t_ in traces), fixed_numeric_cases=nnum)
